@@ -13,7 +13,7 @@ use serde_json::json;
 pub const SCALAR_KINDS: [Kind; 6] = [Kind::Rsi, Kind::Fast, Kind::Slow, Kind::Roc, Kind::Er, Kind::Ppo];
 pub const BAR_KINDS: [Kind; 9] = [Kind::Rsi, Kind::Fast, Kind::Slow, Kind::Roc, Kind::Er, Kind::Ppo, Kind::Cci, Kind::Mfi, Kind::Obv];
 
-pub const RULE: &str = "Positive scalar price streams (band regimes, m in 1e-3..1e6) for RSI/FAST/SLOW/ROC/ER/PPO and valid OHLCV bars with close != (high+low)/2, equal neighbours and zero volume (6 bar styles + tiled AMZN) for those plus CCI/MFI/OBV, periods to 512; every output judged at every step against a double-double from-scratch evaluation of the documented formula at tolerance tau(t)*c*scale when the condition number c <= 1e6 and the reference denominator is non-zero (others counted as skipped); plus every sequence up to a depth bound over a small positive price / bar alphabet for periods 1..=5 (exhaustive). Non-trivial: stream longer than the period and at least one judged (well-conditioned) step; distinct by hash of (indicator, params, stream head) or by construction.";
+pub const RULE: &str = "Positive scalar price streams (band regimes, m in 1e-3..1e6) for RSI/FAST/SLOW/ROC/ER/PPO and valid OHLCV bars with close != (high+low)/2, equal neighbours and zero volume (6 bar styles + tiled AMZN) for those plus CCI/MFI/OBV, periods to 512; every output judged at every step against a double-double from-scratch evaluation of the documented formula at tolerance tau(t)*c*scale when the condition number c <= 1e6 and the reference denominator is non-zero (others counted as skipped); plus long runs of 2*10^5 (quick) / 2*10^6 (thorough) bars judged on the first 3000 steps, every 997th and the last; plus every sequence up to a depth bound over a small positive price / bar alphabet for periods 1..=5 (exhaustive). Non-trivial: stream longer than the period and at least one judged (well-conditioned) step; distinct by hash of (indicator, params, stream head) or by construction.";
 
 fn judge(p: &Params, out: &Out, r: &RefOut, js: &mut Judgements) -> usize {
     osc_judgements(p, out, r, js)
@@ -168,8 +168,46 @@ fn run_enum(ctx: &Ctx) -> Report {
     })
 }
 
+/// long runs for the oscillators (EMA-based ones have infinite memory; OBV is a running sum)
+fn run_soak(ctx: &Ctx) -> Report {
+    let steps = ctx.pick(200_000usize, 2_000_000usize);
+    let seed = ctx.seed;
+    let mut jobs = Vec::new();
+    for (i, regime) in [crate::gen::Regime::Walk, crate::gen::Regime::Saw(100), crate::gen::Regime::AltExtremes, crate::gen::Regime::Plateau].iter().enumerate() {
+        jobs.push((i, *regime));
+    }
+    par_run(jobs, ctx.threads, move |(i, regime), rep| {
+        let mut rng = Rng::derive(seed, 0xC035, *i as u64);
+        let m = *rng.pick(&[1e-2, 1.0, 1e3]);
+        let mut g = BandGen::new(*regime, m, rng.u64());
+        let mut prev: Option<Bar> = None;
+        let bars: Vec<Bar> = (0..steps)
+            .map(|_| {
+                let c = g.next();
+                let b = match prev {
+                    Some(pb) if rng.chance(0.02) => pb,
+                    _ => Bar { o: c * (1.0 - 0.002 * rng.f()), h: c * (1.0 + 0.01 * rng.f()), l: c * (1.0 - 0.01 * rng.f()), c, v: if rng.chance(0.05) { 0.0 } else { (rng.f() * 1e3).floor() } },
+                };
+                prev = Some(b);
+                b
+            })
+            .collect();
+        let inputs: Vec<In> = bars.iter().map(|b| In::B(*b)).collect();
+        let scalars: Vec<In> = bars.iter().map(|b| In::S(b.c)).collect();
+        for kind in BAR_KINDS {
+            let p = params_for(kind, &mut rng, 48);
+            run_stream(rep, "C03", "c03", &p, if kind.has_scalar() && *i % 2 == 0 { &scalars } else { &inputs }, 3000, 997, &judge);
+            rep.count("soak.long_streams");
+            rep.distinct_by_construction += 1;
+        }
+    })
+}
+
 pub fn run(ctx: &Ctx) -> Report {
     let mut rep = Report::new();
+    if ctx.phase_enabled("soak") {
+        rep.merge(run_soak(ctx));
+    }
     if ctx.phase_enabled("scalar") {
         rep.merge(run_scalar(ctx));
     }
@@ -180,7 +218,7 @@ pub fn run(ctx: &Ctx) -> Report {
         rep.merge(run_enum(ctx));
     }
     if ctx.only.is_none() {
-        for key in ["bars.typical_price_differs_from_close", "bars.zero_volume", "bars.equal_neighbours", "period_1", "enum.bar_sequences", "enum.scalar_sequences", "phase.wrapped_twice_or_more"] {
+        for key in ["bars.typical_price_differs_from_close", "bars.zero_volume", "bars.equal_neighbours", "period_1", "enum.bar_sequences", "enum.scalar_sequences", "phase.wrapped_twice_or_more", "soak.long_streams"] {
             if rep.counters.get(key).copied().unwrap_or(0) == 0 {
                 rep.inconclusive.push(format!("coverage floor missed: {} = 0", key));
             }
